@@ -139,12 +139,74 @@ def rule_r1(ctx: Ctx) -> None:
             elif ACCEPTED_SET_ITER.get(key):
                 ctx.accept("C08.R1", f"{f.loc(node)} {norm(e)}", ACCEPTED_SET_ITER[key])
                 ctx.ob("C08.R1", f, node, construct, True, "accepted: " + ACCEPTED_SET_ITER[key])
+
             else:
                 ctx.ob("C08.R1", f, node, construct, False,
                        f"'{norm(node)[:70]}' consumes the set '{norm(e)}' in iteration order ({why}); sets of classes iterate in "
                        f"address order, which differs from process to process, so the same seed gives different results in "
                        f"different processes")
     ctx.floor("C08.R1", n, 8, "iteration sites over set-typed expressions")
+    # fixpoint loops over sets: order-insensitivity of their result rests on running to the fixpoint
+    nfix = 0
+    for (fname, setname), reason in ACCEPTED_SET_ITER.items():
+        if "fixpoint" not in reason:
+            continue
+        for f in prog.functions.values():
+            if f.qualname != fname:
+                continue
+            for loop in [w for w in walk_local(f.node) if isinstance(w, ast.While) and isinstance(w.test, ast.Name)]:
+                if any(isinstance(x, ast.For) and norm(x.iter) == setname for b in loop.body for x in ast.walk(b)):
+                    nfix += 1
+                    _fixpoint_complete(ctx, f, loop)
+    ctx.floor("C08.R1", nfix, 1, "fixpoint loops over a set of symbols")
+
+
+def _flag_returning(g: FunctionInfo) -> bool:
+    """does *g* return a 'something changed' flag: a local that starts False and is set True / or-ed in the body?"""
+    rets = [r for r in walk_local(g.node) if isinstance(r, ast.Return) and isinstance(r.value, ast.Name)]
+    for r in rets:
+        nm = r.value.id
+        starts = any(isinstance(a, ast.Assign) and isinstance(a.targets[0], ast.Name) and a.targets[0].id == nm
+                     and isinstance(a.value, ast.Constant) and a.value.value is False for a in walk_local(g.node))
+        grows = any((isinstance(a, ast.AugAssign) and isinstance(a.target, ast.Name) and a.target.id == nm and isinstance(a.op, ast.BitOr))
+                    or (isinstance(a, ast.Assign) and isinstance(a.targets[0], ast.Name) and a.targets[0].id == nm
+                        and isinstance(a.value, ast.Constant) and a.value.value is True) for a in walk_local(g.node))
+        if starts and grows:
+            return True
+    return False
+
+
+def _fixpoint_complete(ctx: Ctx, f: FunctionInfo, site: ast.AST) -> None:
+    """An order-insensitive set iteration is accepted only inside a loop that really runs to a fixpoint: every helper called
+    in the body that reports 'something changed' must have that report accumulated into the loop's continuation flag -
+    otherwise the loop can stop with an incomplete closure, and how far it got depends on the set's iteration order."""
+    loop = site
+    flag = loop.test.id
+    dropped = []
+    nflag = 0
+    for c in [x for b in loop.body for x in ast.walk(b) if isinstance(x, ast.Call)]:
+        t = ctx.res.resolve(ctx.prog.function_containing(c) or f, c)
+        g = None
+        if t.kind == "repo" and t.targets:
+            g = t.targets[0]
+        elif isinstance(c.func, ast.Name):
+            g = ctx.res._local_def(f, c.func.id)
+        if g is None or not _flag_returning(g):
+            continue
+        nflag += 1
+        st = enclosing_stmt(c)
+        used = (isinstance(st, ast.AugAssign) and isinstance(st.target, ast.Name) and st.target.id == flag and isinstance(st.op, ast.BitOr)) \
+            or (isinstance(st, ast.Assign) and isinstance(st.targets[0], ast.Name) and st.targets[0].id == flag
+                and flag in {n_.id for n_ in ast.walk(st.value) if isinstance(n_, ast.Name)}) \
+            or (isinstance(st, ast.If) and any(isinstance(a, ast.Assign) and isinstance(a.targets[0], ast.Name) and a.targets[0].id == flag
+                                              for a in ast.walk(st)))
+        if not used:
+            dropped.append(c)
+    ctx.ob("C08.R1", f, dropped[0] if dropped else loop, f"{f.name}: every 'something changed' report in the fixpoint loop feeds the loop flag '{flag}'",
+           not dropped, "" if not dropped else
+           f"'{norm(dropped[0])[:60]}' returns whether its closure grew, but the result is dropped: the loop over the set can stop before "
+           f"the closure is complete, and how far it got depends on the set's iteration order (class addresses), so recursive_prods - and "
+           f"every decider that consults it - differs between processes for the same seed", witness={"flag_returning_calls": nflag})
 
 
 def rule_r2(ctx: Ctx) -> None:
